@@ -26,6 +26,7 @@ type C10Case struct {
 	Rewrites []string `json:"rewrites,omitempty"`
 	KeepsSet bool     `json:"keeps_term_set"`
 	Allowed  []ev.QS  `json:"allowed,omitempty"` // nil: all subsets of Leaf
+	MaxLists int      `json:"max_lists,omitempty"` // >0: an evenly spaced sample of that many subsets instead of all (large products)
 }
 
 var rewriteNames = []string{"commute", "reassociate", "idempotence", "absorption", "distribute", "factor"}
@@ -155,6 +156,13 @@ func judgeC10(c *Ctx, cs C10Case) {
 	lists := subsetsOf(leaf)
 	if cs.Allowed != nil {
 		lists = [][]string{ev.Strs(cs.Allowed)}
+	} else if cs.MaxLists > 0 && len(lists) > cs.MaxLists {
+		var sample [][]string
+		for j := 0; j < cs.MaxLists; j++ {
+			sample = append(sample, lists[j*len(lists)/cs.MaxLists])
+		}
+		sample = append(sample, lists[len(lists)-1]) // all terms allowed
+		lists = sample
 	}
 	e1, e2 := string(cs.E1), string(cs.E2)
 	key := cs.Kind + ":" + strings.Join(cs.Rewrites, ",") + cs.Op + ":" + trunc(e1, 60)
@@ -225,6 +233,7 @@ func runC10(c *Ctx, phase string) {
 	c.Floor("compose_true", 500)
 	c.Floor("compose_false", 500)
 	c.Floor("extract_set_checks", 500)
+	c.Floor("big_product_pairs", 40)
 
 	for i := 0; i < n; i++ {
 		if !c.Mine(i) {
@@ -266,12 +275,34 @@ func runC10(c *Ctx, phase string) {
 			c.Distinct(gen.HashStr("compose", string(cs.E1), string(cs.E2), op))
 			continue
 		}
+		if i%64 == 7 && k >= 3 {
+			// one large product: an AND of m two-way OR groups over the pool (128..512 alternatives in a single product),
+			// code that switches strategy above an alternative-count threshold is reached only by such spellings
+			m := 7 + r.Intn(3)
+			var prod *gen.Node
+			for g := 0; g < m; g++ {
+				grp := gen.Or(gen.LeafN(r.Intn(k)), gen.LeafN(r.Intn(k)))
+				if prod == nil {
+					prod = grp
+				} else if r.Chance(1, 2) {
+					prod = gen.And(prod, grp)
+				} else {
+					prod = gen.And(grp, prod)
+				}
+			}
+			tc.Tree = prod
+			c.Inc("big_product_pairs")
+		}
 		t2 := tc.Tree.Clone()
 		var names []string
 		keeps := true
 		want := 1 + r.Intn(6)
 		for try := 0; try < 40 && len(names) < want; try++ {
-			name, kp := applyRewrite(&t2, r, k, maxDNF)
+			lim := maxDNF
+			if i%64 == 7 {
+				lim = 1024
+			}
+			name, kp := applyRewrite(&t2, r, k, lim)
 			if name != "" {
 				names = append(names, name)
 				keeps = keeps && kp
@@ -281,7 +312,11 @@ func runC10(c *Ctx, phase string) {
 		a1, _ := tc.Tree.DNFCells()
 		a2, _ := t2.DNFCells()
 		c.CountIf(a1 != a2, "pairs_differing_dnf_shape")
-		cs := C10Case{Kind: "rewrite", Leaf: ev.QSs(leaf), Rewrites: names, KeepsSet: keeps,
+		maxLists := 0
+		if i%64 == 7 {
+			maxLists = 10
+		}
+		cs := C10Case{Kind: "rewrite", Leaf: ev.QSs(leaf), Rewrites: names, KeepsSet: keeps, MaxLists: maxLists,
 			E1: ev.QS(tc.Tree.Render(leaf, gen.RenderOpt{Paren: gen.ParenMinimal})),
 			E2: ev.QS(t2.Render(leaf, gen.RenderOpt{Paren: []int{gen.ParenFull, gen.ParenRandom, gen.ParenMinimal}[r.Intn(3)], Spaces: r.Chance(1, 2), R: r}))}
 		judgeC10(c, cs)
